@@ -25,7 +25,7 @@ RULE_TEXT = "dispatch-table agreement under CONST specialisation; dependence; fr
 EST = "dreye.api.estimator:ReceptorEstimator"
 
 AXES = {
-    "K": (["vec", "mat", None], ["vec", "mat", None]),
+    "K": (["vec", "mat", None, "scalar"], ["vec", "mat", None, "scalar"]),
     "baseline": (["vec", None], ["vec", None, "scalar"]),
     "W": (["mat", "vec"], ["mat", "vec", None]),
     "lb": (["nonneg"], ["nonneg"]),
@@ -150,8 +150,8 @@ def dispatch(rep, an):
         kw = dict(model=const(model), batch_size=bsv, verbose=const(0), B=arr("B", S("N", "F"), U_REL, "TOTAL", sign="NONNEG"))
         res = an.run(f"{EST}.fit", kws=kw, self_fields=fields, config=f"model={model}")
         entry = "ReceptorEstimator.fit"
-        calls = [ev for ev in res.events("call") if len(ev.path) == 1 and ev.d["callee"].module.name.endswith("lsq_linear")
-                 or (len(ev.path) == 1 and ev.d["callee"].name.startswith("lsq_"))]
+        calls = [ev for ev in res.events("call") if R.near(ev) and ev.d["callee"].module.name.endswith("lsq_linear")
+                 or (R.near(ev) and ev.d["callee"].name.startswith("lsq_"))]
         names = sorted({ev.d["callee"].name for ev in calls})
         ok = names == [want]
         rep.check("R-DISPATCH", f"fit(model='{model}') → {want}", ok, where=res.fn.loc(),
@@ -166,7 +166,7 @@ def dispatch(rep, an):
                                                "baseline": "self.baseline", "batch_size": "batch_size", "B": "B"})
     res = an.run(f"{EST}.fit", kws=dict(model=const("bogus"), B=arr("B", S("N", "F"), U_REL, "TOTAL")), self_fields=fields,
                  config="model=bogus")
-    raised = [e for e in res.events("raise") if len(e.path) == 1]
+    raised = [e for e in res.events("raise") if R.near(e)]
     rep.check("R-DISPATCH", "fit(model=<unknown>) raises", F.raises(res),
               where=res.fn.loc(), construct="fit(model='bogus')", entry="ReceptorEstimator.fit", config=res.config)
     # lsq_linear's own table
